@@ -157,6 +157,21 @@ def rule_flag_reads(ctx):
             n_reads += 1
             if pm is None:
                 pm = hq.parent_map(b["body"])
+            kind = classify_read(b, pm, n, n["name"])
+            ctx.add("FLOW-READ", "%s.%s@%s#%d" % (owner, n["name"], hq.last(b["def_path"], 2), n_reads), kind is not None, ctx.site(b, n),
+                    "read of %s.%s is a %s" % (owner, n["name"], kind or "use outside the documented gates: %s" % hq.render(pm.get(id(n)) or n)[:80]))
+    ctx.floor("FLOW-READ", "flag_reads", n_reads, 6)
+    rule_main_flags(ctx)
+
+
+ITER_GLUE = {"Vec::push", "Vec::extend", "AnnotatedFormula::into_problem_formula", "Iterator::map", "Iterator::collect", "IntoIterator::into_iter", "Iterator::flat_map",
+             "slice::into_vec", "Iterator::chain", "iter::once"}
+
+
+def classify_read(b, pm, n, flag, depth=0):
+    """what a read of a flag (or of a local that holds a copy of it) is used for; None = outside the documented gates"""
+    if True:
+        if True:
             p = pm.get(id(n))
             # look through wrappers
             cur = n
@@ -165,33 +180,40 @@ def rule_flag_reads(ctx):
             kind = None
             if p is None:
                 kind = None
+            elif p.get("k") == "LetStmt" and p.get("init") is cur and p["pat"].get("p") == "Bind" and "sub" not in p["pat"] and depth < 2:
+                # a named copy of the flag: every use of the copy must itself be a documented use
+                uses = hq.uses_of(b["body"], p["pat"]["id"])
+                kinds = [classify_read(b, pm, u, flag, depth + 1) for u in uses]
+                kind = ("copy `%s`: %s" % (p["pat"].get("name"), sorted(set(kinds)))) if uses and all(k_ is not None for k_ in kinds) else None
             elif p.get("k") == "If" and p.get("cond") is cur:
                 then_c = set(flow.callees_in(flow.summ(p["then"])))
                 else_c = set(flow.callees_in(flow.summ(p["else"]))) if "else" in p else set()
-                if n["name"] == "simplify":
+                if flag == "simplify":
                     ok_g = then_c <= {"Iterator::map", "Apply::apply_fixpoint", "Apply::apply", "Compose::compose", "slice::concat"} and "Apply::apply_fixpoint" in then_c and not else_c \
                         and p.get("ty") == "()"
                     kind = "gate(simplification only)" if ok_g else None
-                elif n["name"] == "break_equivalences":
+                elif flag == "break_equivalences":
                     brk = {c for c in then_c if "break_equivalences" in c}
                     rest = {c for c in then_c if "break_equivalences" not in c}
-                    ok_g = bool(brk) and rest <= else_c | {"Vec::push", "AnnotatedFormula::into_problem_formula"} and p.get("ty") == "()"
+                    ok_g = bool(brk) and rest <= else_c | ITER_GLUE
                     kind = "gate(equivalence breaking only)" if ok_g else None
                 else:
                     kind = None
-            elif p.get("k") == "Match" and p.get("scrut") is cur and n["name"] == "decomposition":
+            elif p.get("k") == "Match" and p.get("scrut") is cur and flag == "decomposition":
                 kind = "dispatch"
             elif "k" not in p and p.get("e") is cur and "name" in p:
                 st = pm.get(id(p))
-                if st is not None and st.get("k") == "Struct" and p["name"] == n["name"] and hq.last(st["res"].get("adt", "")) in TASKS:
+                if st is not None and st.get("k") == "Struct" and p["name"] == flag and hq.last(st["res"].get("adt", "")) in TASKS:
                     kind = "pass-through"
             elif p.get("k") == "MethodCall" and (callee(p) or "").endswith("Problem::decompose") and cur in p["args"]:
                 kind = "decompose-arg"
             elif p.get("k") == "Match" and p.get("mac") == "matches":
                 kind = None
-            ctx.add("FLOW-READ", "%s.%s@%s#%d" % (owner, n["name"], hq.last(b["def_path"], 2), n_reads), kind is not None, ctx.site(b, n),
-                    "read of %s.%s is a %s" % (owner, n["name"], kind or "use outside the documented gates: %s" % hq.render(p)[:80]))
-    ctx.floor("FLOW-READ", "flag_reads", n_reads, 6)
+            return kind
+
+
+def rule_main_flags(ctx):
+    fx = ctx.facts
     # main: the flags are the negated command-line switches and nothing else
     m = fx.fn("command_line::procedures::main")
     for st in hq.nodes(m["body"], "Struct"):
